@@ -150,6 +150,7 @@ type Enc struct {
 	paramVars      []ModelVar
 	preLen         int
 	qn             int
+	rootFoot       *callEffect
 }
 
 func newEnc(w *World, fn *ssa.Function, c *Contract) *Enc {
@@ -162,19 +163,16 @@ func newEnc(w *World, fn *ssa.Function, c *Contract) *Enc {
 }
 
 func (e *Enc) reset() {
-	e.d = newDecls()
+	// declarations, heap-key registrations and recursive-spec axioms persist
+	// across fixpoint rounds (they are identities, not per-run state)
 	e.body = nil
 	e.n = 0
 	e.obls = nil
 	e.hid = 0
 	e.frameN = 0
-	e.keySort = map[string]string{}
-	e.keyType = map[string]types.Type{}
 	e.strs = map[string]string{}
 	e.axiomsIn = false
 	e.fatal = nil
-	e.recDeclared = nil
-	e.recAxioms = nil
 	e.cellOp = nil
 	e.warns = map[string]bool{}
 	e.used = map[string]bool{}
@@ -681,7 +679,7 @@ func (e *Enc) runFrame(fr *Frame, args []Operand, guard string, heap *Heap) {
 					continue
 				}
 				eg, ok := fr.edgeG[[2]int{p.Index, b.Index}]
-				if !ok {
+				if !ok || eg == "false" {
 					continue // unreachable / unprocessed predecessor
 				}
 				_ = pi
